@@ -1052,10 +1052,10 @@ class Rewriter:
                 if isinstance(node.value, (ArrayNode, FunctionNode)):
                     remove_node({'file': i['file'], 'str': '', 'node': node.value, 'action': 'rm'})
                     raw = files[i['file']]['raw']
-                while raw[end] != '=':
+                while end < len(raw) and raw[end] != '=':
                     end += 1
                 end += 1 # Handle the '='
-                while raw[end] in {' ', '\n', '\t'}:
+                while end < len(raw) and raw[end] in {' ', '\n', '\t'}:
                     end += 1
 
             files[i['file']]['raw'] = raw[:start] + i['str'] + raw[end:]
